@@ -260,6 +260,10 @@ class H11Protocol:
         )
         self.keep_alive_requests += 1
         await self.context.mark_request()
+        if getattr(self.stream, "closed", False) is True:
+            # The stream answered by itself (e.g. a 404 for an unknown
+            # server name), nothing else is going to close it.
+            await self.stream_send(StreamClosed(stream_id=STREAM_ID))
 
     async def _send_h11_event(self, event: H11SendableEvent) -> None:
         try:
